@@ -180,6 +180,30 @@ func TestDefaultBlockSize(t *testing.T) {
 	}
 }
 
+// Block sizes around powers of two up to 2^17 (an offset counter narrower
+// than int would wrap at 2^8, 2^16, ...), each crossed by one and two boundaries.
+func TestPowerOfTwoBlockSizes(t *testing.T) {
+	sizes := []int{127, 128, 129, 255, 256, 257, 4095, 4096, 4097, 32767, 32768, 32769, 65535, 65536, 65537, 131071, 131072}
+	for i, size := range sizes {
+		if !harness.MyShare(i) {
+			continue
+		}
+		for _, kind := range []string{"token", "position"} {
+			for _, count := range []int{size - 1, size, size + 1, 2*size + 1} {
+				if size > 40000 && count > size+1 && !harness.Thorough() {
+					continue
+				}
+				record(kind, size, count)
+				if m := runHistory(kind, size, count, false); m != "" {
+					harness.Failf(t, "power-of-two-sizes", []byte(fmt.Sprintf("%s %d %d", kind, size, count)),
+						map[string]string{"kind": kind, "size": fmt.Sprint(size), "count": fmt.Sprint(count)}, "%s", m)
+					return
+				}
+			}
+		}
+	}
+}
+
 // Drawn sizes up to 8192 with counts crossing 0..6 block boundaries.
 func TestDrawnSizes(t *testing.T) {
 	harness.Check(t, "drawn-sizes", 400, 6000, func(rt *rapid.T) {
